@@ -453,3 +453,15 @@ Definition novel_ok_all (c : octx) (ms : list omodel) : bool := each_with_others
 (* the loop `while subs in self.intron_correction_map: subs = self.intron_correction_map[subs]` with explicit fuel *)
 Fixpoint chase (fuel : nat) (m : list (iv * iv)) (x : iv) : iv :=
   match fuel with O => x | Datatypes.S f => match assoc x m with Some y => chase f m y | None => x end end.
+
+(* the second pass of filter_transcripts: detect_similar_isoforms on the survivors, every novel model in to_substitute is deleted *)
+Definition filter_pass2 (subst : list Z) (s : store) : store :=
+  fold_left (fun st m =>
+               let t := fst m in
+               if snd m && zmem t subst
+               then mkS (filter (fun x => negb (fst x =? t)) (models st)) (filter (fun e => negb (fst e =? t)) (rtab st)) (upd (cnt st) t 0)
+               else st)
+            (models s) s.
+(* filter_transcripts as a whole *)
+Definition filter_transcripts_model (mnc : Z) (subst1_ : list Z) (cut : Z -> Z) (bad_mapq : Z -> bool) (subst2 : list Z) (s : store) : store :=
+  filter_pass2 subst2 (filter_pass mnc subst1_ cut bad_mapq s).
